@@ -2,6 +2,8 @@ import functools
 import math
 import operator
 
+import numpy as np
+import pandas as pd
 from dask.dataframe.dispatch import make_meta, meta_nonempty
 from dask.dataframe.multi import (
     _concat_wrapper,
@@ -35,6 +37,7 @@ from dask_expr._repartition import Repartition
 from dask_expr._shuffle import (
     RearrangeByColumn,
     _contains_index_name,
+    _is_numeric_cast_type,
     _select_columns_or_index,
 )
 from dask_expr._util import _convert_to_list, _tokenize_deterministic, is_scalar
@@ -693,6 +696,25 @@ class HashJoinP2P(Merge, PartitionsFiltered):
         return
 
 
+def _split_partition_like_shuffle(df, on, nsplits):
+    """Split a partition by the keys with the rule that ``RearrangeByColumn``
+    applied to the broadcast side (same cast of numeric and numeric categorical
+    keys before hashing), so that equal keys meet"""
+    keys = [on] if isinstance(on, str) or not pd.api.types.is_list_like(on) else on
+    keys = list(keys)
+    if on is not None and set(keys).issubset(df.columns):
+        from dask.dataframe.dispatch import group_split_dispatch
+
+        cast_dtype = {
+            col: np.float64
+            for col, dtype in df[keys].dtypes.items()
+            if _is_numeric_cast_type(dtype)
+        }
+        ind = partitioning_index(df[keys], nsplits, cast_dtype=cast_dtype or None)
+        return group_split_dispatch(df, ind, nsplits, ignore_index=False)
+    return _split_partition(df, on, nsplits)
+
+
 class BroadcastJoin(Merge, PartitionsFiltered):
     _parameters = [
         "left",
@@ -768,7 +790,7 @@ class BroadcastJoin(Merge, PartitionsFiltered):
         for i, part_out in enumerate(self._partitions):
             if self.how != "inner":
                 dsk[(split_name, part_out)] = (
-                    _split_partition,
+                    _split_partition_like_shuffle,
                     (other, part_out),
                     other_on,
                     bcast_size,
